@@ -158,7 +158,7 @@ def run(db, chk):
         n_sc += reroute_rule(db, chk, uname, impls)
         n_sc += pits_trigger_rule(db, chk, uname, impls)
         if (uname == UNITS[0] or chk.tier == "thorough") and chk.want("C01-E8"):
-            n_sc += mstpipe.run_rule(db, chk, uname, "C01-E8", None)
+            n_sc += mstpipe.run_rule(db, chk, uname, "C01-E8", None, deep=(uname == UNITS[0]))
         # ---------------------------------------------------------------- E4
         C06.order_rule(db, Effects(db), chk, uname, "C01-E4", only_op=MST)
     chk.absorb(db, "C09", {"C09-P2"}, "C01-E6", "the basin graph / resolver scratch state is reset at every "
